@@ -311,6 +311,74 @@ def check_type(rep, name, m, r, ty, stats):
     return want, dl
 
 
+def nested_extent(rep, name, r, dls, stats):
+    """A struct used as a field that is not last, or as an array element, must be decoded from exactly its own
+    octets.  The decoder of a derived struct runs its root ancestor's decoder on the span it is given: when that
+    ancestor's payload is open ended the nested decode swallows the rest of the enclosing packet, although the
+    reference extent of the derived struct is its own (static or self-delimited) size."""
+    memo_d, memo_r = {}, {}
+
+    def root(ty):
+        ch = r.parent_chain(ty)
+        return ch[-1] if ch else ty
+
+    def dec_open(ty):
+        if ty in memo_d:
+            return memo_d[ty]
+        memo_d[ty] = False
+        dl = dls.get(root(ty))
+        res = False
+        for it in (dl.items if dl is not None else []):
+            if it["k"] == "payload" and it["shape"].get("k") == "rest":
+                res = True
+            elif it["k"] == "array" and it["shape"].get("k") == "rest" and it.get("pad") is None:
+                res = True
+            elif it["k"] == "typedef" and it.get("tk") == "struct" and dec_open(it["type"]):
+                res = True
+        memo_d[ty] = res
+        return res
+
+    def ref_open(ty):
+        if ty in memo_r:
+            return memo_r[ty]
+        memo_r[ty] = False
+
+        def walk(items):
+            for it in items:
+                if it["k"] == "payload" and it["shape"]["k"] in ("rest", "unknown"):
+                    return True
+                if it["k"] == "array" and it["shape"]["k"] == "rest" and it.get("pad") is None:
+                    return True
+                if it["k"] == "child" and it["shape"]["k"] != "size" and walk(it["items"]):
+                    return True
+                if it["k"] == "typedef" and it.get("tk") == "struct" and it["type"] in r.decls and ref_open(it["type"]):
+                    return True
+            return False
+        try:
+            res = walk(r.full_layout(ty))
+        except refm.RefError:
+            res = True
+        memo_r[ty] = res
+        return res
+
+    for ty, dl in dls.items():
+        uses = []
+        for i, it in enumerate(dl.items):
+            if it["k"] == "typedef" and it.get("tk") == "struct" and i + 1 < len(dl.items):
+                uses.append((it["type"], f"field `{it.get('name')}`", "field"))
+            elif it["k"] == "array" and it["elem"].get("k") == "struct":
+                uses.append((it["elem"]["type"], f"array `{it.get('name')}`", "array-element"))
+        for t, what, kind in uses:
+            if t not in r.decls or r.decls[t].kind != "struct":
+                continue
+            stats["items"] += 1
+            if dec_open(t) and not ref_open(t):
+                rep.add(f"C04|rust|dec|nested-extent|consumes-rest|{kind}", f"{what} of type {t}: {t}::decode runs "
+                        f"{root(t)}::decode on the enclosing span, whose open-ended payload takes every remaining octet; the "
+                        f"reference extent of {t} is its own size, so valid encodings with anything after the first {t} are "
+                        f"rejected", f"{name}:{ty}")
+
+
 def run(rep, tier, seed):
     g = rc.gen(tier, seed)
     stats = {"items": 0, "types": 0, "rejects": 0}
@@ -319,14 +387,18 @@ def run(rep, tier, seed):
         r = rc.model_ref(g, name)
         if r is None:
             continue
+        dls = {}
         for ty in m.type_names():
             if ty not in r.decls or r.decls[ty].kind not in ("packet", "struct"):
                 continue
             res = check_type(rep, name, m, r, ty, stats)
+            if res:
+                dls[ty] = res[1]
             if res and len(samples) < 3:
                 want, dl = res
                 samples.append({"description": name, "type": ty, "reference_items": [w["k"] for w in want][:8],
                                 "decoder_items": [x["k"] for x in dl.items][:8]})
+        nested_extent(rep, name, r, dls, stats)
     rep.coverage.update({
         "programs": stats["types"], "disagreements_checked": stats["items"] + stats["rejects"], "samples": samples,
         "items_compared": stats["items"], "reject_points_checked": stats["rejects"],
